@@ -411,8 +411,21 @@ Definition exec_fresh (w : world) (i : inst) (q : reqdata) : outcome * nat :=
 
 (* ------------------------------------------------------------------ keys *)
 
+(** candidate repairs of three findings (fixes/C11-F1.diff … F3.diff); [false] = the code of the tree as it is:
+    [fx1] maps are hashed in the order of their keys, [fx2] a cached introspection response is validated
+    under the assertions in force, [fx3] the remote authorizer verifies its expressions on a hit *)
+Record fixes := { fx1 : bool; fx2 : bool; fx3 : bool }.
+Definition fx_none : fixes := {| fx1 := false; fx2 := false; fx3 := false |}.
+Definition fx_all : fixes := {| fx1 := true; fx2 := true; fx3 := true |}.
+
 Section Keys.
+  Variable fx : fixes.
   Variable H : string -> string.   (* SHA-256 *)
+
+  (** the order in which a map (a sorted association list in the model) is hashed:
+      as iterated ([observed]) or, after the repair, by key *)
+  Definition hash_order {A} (observed : list string) (m : list (string * A)) : list string :=
+    if fx1 fx then map fst m else observed.
 
   Definition digest (l : list fld) : string := H (cat l).
 
@@ -426,7 +439,7 @@ Section Keys.
   (** Endpoint.Hash: url, method, the headers in iteration order, the strategy's hash *)
   Definition ep_fields (ho : list string) (e : ep) : list fld :=
     [FV (tpl_text (e_url e)); FV (e_method e)]
-    ++ kv_fields (map (fun kt => (fst kt, tpl_text (snd kt))) (order_by ho (e_headers e)))
+    ++ kv_fields (map (fun kt => (fst kt, tpl_text (snd kt))) (order_by (hash_order ho (e_headers e)) (e_headers e)))
     ++ auth_fields (e_auth e).
 
   Definition ep_hash (ho : list string) (e : ep) : string := digest (ep_fields ho e).
@@ -444,14 +457,14 @@ Section Keys.
       | None => None
       | Some (vals, payload) =>
         Some ([FX (ep_hash ho (eff_ep i)); FV (i_id i); FV (join "," (i_up i)); FV payload;
-               FX (le64 (ttl_val i)); FX (sub_hash q)] ++ kv_fields (order_by vo vals))
+               FX (le64 (ttl_val i)); FX (sub_hash q)] ++ kv_fields (order_by (hash_order vo vals) vals))
       end
     | KCtx =>
       match rendered i q with
       | None => None
       | Some (vals, payload) =>
         Some ([FX (ep_hash ho (eff_ep i)); FV (i_id i); FV (join "," (i_fwdh i)); FV (join "," (i_fwdc i));
-               FV payload; FX (le64 (ttl_val i)); FX (sub_hash q)] ++ kv_fields (order_by vo vals))
+               FV payload; FX (le64 (ttl_val i)); FX (sub_hash q)] ++ kv_fields (order_by (hash_order vo vals) vals))
       end
     end.
 
@@ -465,8 +478,14 @@ Section Keys.
   (** one Execute against the shared cache.  Returns the key looked up (if any),
       whether it was a hit, the number of calls to the remote system, the
       outcome and the cache afterwards.  A hit returns the stored response
-      without applying the instance's policy. *)
+      without applying the instance's policy (unless repaired, see [recheck]). *)
   Record sres := { sr_key : option string; sr_hit : bool; sr_calls : nat; sr_out : outcome }.
+
+  (** what a hit returns: the stored response; after the repairs of F2 / F3 only if it
+      satisfies the policy of the instance at hand *)
+  Definition recheck (i : inst) (r : result) : outcome :=
+    let checked := match i_kind i with KIntro => fx2 fx | KRemote => fx3 fx | KGen | KCtx => false end in
+    if checked && negb (policy_ok i r) then ODeny else OAllow r.
 
   Definition exec_cached (w : world) (c : cache) (ho vo : list string) (i : inst) (q : reqdata) : sres * cache :=
     match cache_key ho vo i q with
@@ -474,7 +493,7 @@ Section Keys.
       let '(o, n) := exec_fresh w i q in ({| sr_key := None; sr_hit := false; sr_calls := n; sr_out := o |}, c)
     | Some k =>
       match lookup k c with
-      | Some r => ({| sr_key := Some k; sr_hit := true; sr_calls := 0; sr_out := OAllow r |}, c)
+      | Some r => ({| sr_key := Some k; sr_hit := true; sr_calls := 0; sr_out := recheck i r |}, c)
       | None =>
         let '(o, n) := exec_fresh w i q in
         ({| sr_key := Some k; sr_hit := false; sr_calls := n; sr_out := o |},
